@@ -64,15 +64,19 @@ func stscOf(spc []int) []stscEntry {
 }
 
 // buildMultiProg lays out ftyp, moov, mdat (or ftyp, mdat, moov) with the chunks of all tracks interleaved
-// round-robin. co64 selects 64-bit chunk offsets; edts adds an edit list to every track.
-func buildMultiProg(tracks []cropTrack, co64, mdatFirst, edts, cropMdat64 bool) []byte {
+// round-robin (revChunks: in reverse trak order, so that the first chunk in mdat is not the first trak's). co64 selects 64-bit chunk offsets; edts adds an edit list to every track.
+func buildMultiProg(tracks []cropTrack, co64, mdatFirst, edts, cropMdat64, revChunks bool) []byte {
 	ftyp := mFtyp("isom", 0x200, "isom", "iso2", "mp41")
 	// chunk order: round robin over tracks
 	type ck struct{ t, c int }
 	var order []ck
 	for c := 0; ; c++ {
 		any := false
-		for t := range tracks {
+		for k := range tracks {
+			t := k
+			if revChunks { // the chunk of the last trak of the moov comes first in every round
+				t = len(tracks) - 1 - k
+			}
 			if c < len(tracks[t].Spc) {
 				order = append(order, ck{t, c})
 				any = true
@@ -383,8 +387,8 @@ func c10Replay(args []string) error {
 			defer wg.Done()
 			defer func() { <-sem }()
 			c := &cases[i]
-			variant := i % 6
-			in := buildMultiProg(c.Tracks, variant == 1, variant == 2 || variant == 5, variant == 3, variant >= 4)
+			variant := i % 7
+			in := buildMultiProg(c.Tracks, variant == 1, variant == 2 || variant == 5, variant == 3, variant == 4 || variant == 5, variant == 6)
 			inPath := filepath.Join(tmp, fmt.Sprintf("in%d.mp4", i))
 			outPath := filepath.Join(tmp, fmt.Sprintf("out%d.mp4", i))
 			_ = ioutil.WriteFile(inPath, in, 0644)
@@ -398,7 +402,7 @@ func c10Replay(args []string) error {
 			for t, tr := range c.Tracks {
 				kinds[t] = fmt.Sprintf("%s n=%d ts=%d stss=%v ctts=%v spc=%v", tr.Kind, len(tr.Durs), tr.Ts, tr.HasStss, len(tr.Ctos) > 0, tr.Spc)
 			}
-			cs := J{"tracks": c.Tracks, "d": c.D, "variant": []string{"stco", "co64", "mdat-first", "edts", "mdat-largesize", "mdat-largesize-first"}[variant], "expected_kept": c.Kept, "endtime": c.EndTime}
+			cs := J{"tracks": c.Tracks, "d": c.D, "variant": []string{"stco", "co64", "mdat-first", "edts", "mdat-largesize", "mdat-largesize-first", "reverse-interleave"}[variant], "expected_kept": c.Kept, "endtime": c.EndTime}
 			if err != nil {
 				if strings.Contains(stderr.String(), "goroutine ") && strings.Contains(stderr.String(), "panic") {
 					first := strings.SplitN(stderr.String(), "\n", 2)[0]
